@@ -94,7 +94,7 @@ class TornadoEventLoop(EventLoop):
         Call all the registered idle callbacks.
         """
         try:
-            for callback in self._idle_callbacks.values():
+            for callback in list(self._idle_callbacks.values()):
                 callback()
         finally:
             self._idle_asyncio_handle = None
